@@ -15,7 +15,10 @@ does), swap enter/exit (kwargs / dict, normal or by exception), alias-style over
 later `d[k] = v`), register/deregister, re-assignment of an ==-equal value with another string form (True / 1 /
 1.0) and of the same, edited object (`p = $X; p.append(..); $X = p`), real 2-3 stage pipelines whose stages carry
 their own `$X=v` prefixes (each stage dumps the environment block it was exec'ed with), launches seen from a
-second thread, and the launch itself: the child
+second thread, scoped and plain assignments of the settings that have a `sync` twin ($XONSH_SUBPROC_CMD_RAISE_ERROR /
+$RAISE_SUBPROC_ERROR, $XONSH_PROMPT_AUTO_SUGGEST / $AUTO_SUGGEST: the twin lives and dies with the same scope), swaps
+and prefixes of variables that are unset but have a registered default, swaps of names an alias overlay holds (the
+overlay keeps priority), and the launch itself: the child
 environment is built exactly the way SubprocSpec.prep_env_subproc builds it (`SubprocSpec(cmd, env=overlay)
 .prep_env_subproc(kw)`), or the way xonsh's other spawners build it (`env.detype()`), and - sampled - the
 helper `venv0` is really spawned with it, or the whole `run_subproc` path is run for real, and what the child
@@ -190,6 +193,11 @@ def check_value(case):
                     return fail("garbled-untranslatable", "a value that has no string form is exported as %r instead "
                                                           "of being omitted" % (got,))
                 return fail("detype-differs", "exported as %r, documented form %s" % (got, V.show_ref(ref)))
+            tw = env._vars[name].sync if name in env._vars else ""
+            if tw:
+                labels.append("A:mirrored")
+                if d.get(tw) != got:
+                    return fail("mirror-differs", "exported as %r, its `sync` twin $%s as %r" % (got, tw, d.get(tw)))
             if got is None:
                 labels.append("A:absent")
                 return None, nontrivial, labels
@@ -298,7 +306,12 @@ POOL = {
     "LS_COLORS": "lscolors", "XONSH_STYLE_OVERRIDES": "tokdict",
     "PROMPT_FIELDS": "opaque", "__THREAD_LOCAL__": "opaque",
     "XONSH_TRACEBACK_LOGFILE": "logfile", "TITLE": "str", "XONSH_COLOR_STYLE_X": "untyped",
+    # settings registered with a `sync` twin (the deprecated name mirrors the canonical one and vice versa)
+    "XONSH_SUBPROC_CMD_RAISE_ERROR": "bool", "RAISE_SUBPROC_ERROR": "bool",
+    "XONSH_PROMPT_AUTO_SUGGEST": "bool", "AUTO_SUGGEST": "bool",
 }
+# exclusions that exist only because the shape is recorded under C11 (scoped changes): applied while that entry is open
+C11_DEFAULT, C11_LOCAL_COPY, C11_OVERLAY_LEAK = "C11-F1", "C11-F2", "C11-F3"
 DYN_NAMES = ["REGV1", "REGV2"]
 REG_TYPES = ["bool", "str", "int", "float", "env_path", "path"]
 MUT_ARGS = ["/m1", "/m2", "/m3"]
@@ -406,20 +419,33 @@ class History:
         return any(sc["type"] == "overlay" and name in sc["layer"] for sc in self.scopes)
 
     def effective(self, name, extra=None, no_overlay=False):
+        """What the main thread sees: the per-command prefix, else the innermost alias overlay holding the name, else
+        the innermost swap, else the shared value.  An alias overlay has priority over swapped values wherever it
+        sits in the nesting (Env.swap: "shadows both swapped and global values", callable_aliases.rst: "overlay has
+        priority")."""
         if extra is not None and name in extra:
             return extra[name]
-        for sc in reversed(self.scopes):
-            if no_overlay and sc["type"] == "overlay":
-                continue
-            if name in sc["layer"]:
-                return sc["layer"][name]
+        for typ in ("swap",) if no_overlay else ("overlay", "swap"):
+            for sc in reversed(self.scopes):
+                if sc["type"] == typ and name in sc["layer"]:
+                    return sc["layer"][name]
         return self.glob.get(name)
 
-    def effective_below_top(self, name):
-        for sc in reversed(self.scopes[:-1]):
-            if name in sc["layer"]:
-                return sc["layer"][name]
-        return self.glob.get(name)
+    def mirror(self, name):
+        """The `sync` twin of a registered variable ('' if none): assignments - scoped ones too - are mirrored."""
+        v = self.env._vars.get(name)
+        return (v.sync or "") if v is not None else ""
+
+    def mirrored(self, cells):
+        """Layer of a scoped assignment of `cells`, applied in order: an assigned value also goes to the twin, a
+        DELETE_VAR mask hides the named variable only."""
+        out = {}
+        for k, c in cells.items():
+            out[k] = c
+            tw = self.mirror(k)
+            if tw and c is not MASK:
+                out[tw] = dict(c, kind=self.kind(tw))
+        return out
 
     def is_set(self, name):
         c = self.effective(name)
@@ -488,7 +514,13 @@ class History:
         nonstr = [(k, v) for k, v in got.items() if not isinstance(k, str) or not isinstance(v, str)]
         if nonstr:
             self.bad("not-str", "%s: mapping holds non-string items %r" % (what, nonstr[:3]))
-        d = self.diff(exp, got, skip=self.residue if other_thread else ())
+        skip = ()
+        if other_thread:
+            if C11_LOCAL_COPY in self.open_ids:
+                skip = self.residue     # a finished scope leaves a private copy behind: recorded under C11
+            elif self.residue:
+                self.labels["second-thread-view-of-names-that-went-through-a-scope"] += 1
+        d = self.diff(exp, got, skip=skip)
         stale = self.last_got is not None and got == self.last_got
         findings = set()
         rest = dict(d)
@@ -566,8 +598,8 @@ class History:
 
     def _top_overlay_cell(self, name):
         for sc in reversed(self.scopes):
-            if name in sc["layer"]:
-                return sc["layer"][name] if sc["type"] == "overlay" else None
+            if sc["type"] == "overlay" and name in sc["layer"]:
+                return sc["layer"][name]
         return None
 
     # -- operations ------------------------------------------------------------------
@@ -586,7 +618,7 @@ class History:
 
     def _writable(self, name):
         # inside a swap scope the swapped names themselves are not reassigned (C11 decides what that means)
-        if self.in_swap(name):
+        if self.in_swap(name) or self.mirror(name) and self.in_swap(self.mirror(name)):
             return False
         if self.uoe and name == "UPDATE_OS_ENVIRON":
             return False
@@ -613,8 +645,11 @@ class History:
         obj = V.decode(kind, op["v"])
         twin = k in self.glob and self._is_twin(self.glob[k], cell)
         self._do(lambda: self.env.__setitem__(k, obj), "set $%s" % k)
-        self.glob[k] = cell
-        self.undeleted.discard(k)
+        for n, c in self.mirrored({k: cell}).items():
+            self.glob[n] = c
+            self.undeleted.discard(n)
+        if self.mirror(k):
+            self.labels["assignment-of-mirrored-variable"] += 1
         self.dirty.clear()          # F1 is about edits with *no* assignment / deletion / scope change in between
         self.touch()
         if cell.get("raw"):
@@ -868,34 +903,50 @@ class History:
     def op_swap_in(self, op):
         if self.uoe:
             return False
-        kv = {}
+        kv, shapes = {}, []
         for k, spec in op["kv"].items():
-            if not self.is_set(k) and self.effective(k) is not MASK and self.has_default(k):
-                self.labels["skipped:swap-of-unset-default(C11-F1)"] += 1
-                continue            # leaves the default *set* afterwards: recorded under C11, not here
-            if self.in_overlay(k):
-                continue            # precedence of a swap inside an alias overlay: two readings in the docs
+            names = [k, self.mirror(k)] if self.mirror(k) else [k]
+            if self._unset_default(k):
+                if C11_DEFAULT in self.open_ids:
+                    self.labels["skipped:swap-of-unset-default(C11-F1)"] += 1
+                    continue        # leaves the default *set* afterwards: recorded under C11, not here
+                shapes.append("swap-of-unset-variable-with-default")
+            if any(self.in_overlay(n) for n in names):
+                if C11_OVERLAY_LEAK in self.open_ids:
+                    self.labels["skipped:swap-of-name-held-by-alias-overlay(C11-F3)"] += 1
+                    continue        # the overlay's value leaks into the thread-local layer: recorded under C11
+                shapes.append("swap-of-name-held-by-alias-overlay")
             kv[k] = spec
-        layer, real = self._scope_cells(kv)
-        if not layer:
+        cells, real = self._scope_cells(kv)
+        if not cells:
             return False
+        layer = self.mirrored(cells)
         if op.get("style") == "dict":
             cm = self.env.swap(real)
         else:
             cm = self.env.swap(**real)
         was_set = {k for k in layer if self.is_set(k)}
+        before = {k: self.effective(k, no_overlay=True) for k in layer}
         self._do(cm.__enter__, "swap enter")
         self.scopes.append({"type": "swap", "layer": layer, "cm": cm, "was_set": was_set})
         self.seen_since_scope.clear()
         self.dirty.clear()
         self.touch()
+        for sh in shapes:
+            self.labels[sh] += 1
+        if len(layer) > len(cells):
+            self.labels["scoped-assignment-of-mirrored-variable"] += 1
         for k, c in layer.items():
-            below = self.effective_below_top(k)
+            below = before[k]
             if c is not MASK and below is not None and below is not MASK and self._is_twin(below, c):
                 self.flags.add("equal-valued-reassignment")
                 self.labels["equal-valued-swap"] += 1
         if any(c is MASK for c in layer.values()):
             self.labels["swap-with-mask"] += 1
+
+    def _unset_default(self, k):
+        """unset, not masked, but readable through its registered default"""
+        return not self.is_set(k) and self.effective(k) is not MASK and self.has_default(k)
 
     def op_overlay_in(self, op):
         if self.uoe:
@@ -940,6 +991,8 @@ class History:
         else:
             self._do(lambda: cm.__exit__(None, None, None), "scope exit")
         if sc["type"] == "swap":
+            if any(self.mirror(k) for k in sc["layer"]):
+                self.flags.add("scope-of-mirrored-variable-ended")
             self.residue.update(sc["layer"])
             self.local_copy.update(k for k in sc["was_set"] if not self.in_swap(k))
             self.seen_since_scope.clear()
@@ -991,14 +1044,17 @@ class History:
             kind = self.kind(k)
             if kind is None:
                 continue
-            if not self.is_set(k) and self.effective(k) is not MASK and self.has_default(k):
-                self.labels["skipped:swap-of-unset-default(C11-F1)"] += 1
-                continue
-            if self.in_overlay(k):
+            if self._unset_default(k):
+                if C11_DEFAULT in self.open_ids:
+                    self.labels["skipped:swap-of-unset-default(C11-F1)"] += 1
+                    continue
+                self.labels["prefix-of-unset-variable-with-default"] += 1
+            names = [k, self.mirror(k)] if self.mirror(k) else [k]
+            if any(self.in_overlay(n) for n in names):
                 if F9 in self.open_ids:
                     self.tolerated[F9] += 1         # shape not generated while the finding is open
                     continue
-                self.clash.add(k)
+                self.clash.update(names)
             if isinstance(spec, dict) and "mask" in spec:
                 extra[k] = MASK
                 real[k] = V.decode(kind, spec)
@@ -1028,7 +1084,9 @@ class History:
             except (ValueError, TypeError):
                 continue
             real[k] = V.decode(kind, spec)
-        return (extra or None), (real or None)
+        if any(self.mirror(k) for k in extra):
+            self.labels["prefix-of-mirrored-variable"] += 1
+        return (self.mirrored(extra) or None), (real or None)
 
     def op_launch(self, op):
         how = op["how"]
@@ -1135,6 +1193,8 @@ class History:
         # a per-command overlay is a swap scope around the spawn
         for k in (extra or ()):
             self.residue.add(k)
+            if self.mirror(k):
+                self.flags.add("scope-of-mirrored-variable-ended")
             if self.is_set(k) and not self.in_swap(k):
                 self.local_copy.add(k)
 
@@ -1669,7 +1729,8 @@ def main(run):
 
     common.replay_tier(run, replayed)
 
-    open_ids = sorted(set(run.known_open) | xref_open)
+    # (the C11 ids switch the exclusions that exist only because a shape is recorded there)
+    open_ids = sorted(set(run.known_open) | xref_open | c11_open)
     nw = 8 if run.tier == "quick" else 16
     per_var = run.n(100, 2500)
     common.pool_map(run, __name__, "worker_a", [(run.seed, per_var, w, nw, open_ids) for w in range(nw)], procs=nw)
@@ -1705,6 +1766,15 @@ def main(run):
                   ("B:op:register", 5), ("B:swap-with-mask", 5), ("B:set-from-string", 10),
                   ("B:launch:pipeline", 10), ("B:pipeline-prefix-on-later-stage", 10),
                   ("B:launch-after-equal-valued-reassignment", 20), ("B:launch-after-same-object-reassignment", 10)]
+        floors += [("B:scoped-assignment-of-mirrored-variable", 50), ("B:prefix-of-mirrored-variable", 50),
+                   ("B:launch-after-scope-of-mirrored-variable-ended", 50)]
+        # shapes that are generated only when the C11 entry that used to cover them is closed
+        if C11_DEFAULT not in c11_open:
+            floors += [("B:swap-of-unset-variable-with-default", 50), ("B:prefix-of-unset-variable-with-default", 50)]
+        if C11_OVERLAY_LEAK not in c11_open:
+            floors += [("B:swap-of-name-held-by-alias-overlay", 10)]
+        if C11_LOCAL_COPY not in c11_open:
+            floors += [("B:second-thread-view-of-names-that-went-through-a-scope", 50)]
         low = ["%s=%d<%d" % (k, h.get(k, 0), v) for k, v in floors if h.get(k, 0) < v]
         kinds_seen = {k.split(":")[-1] for k in h if k.startswith("A:kind:")}
         if len(kinds_seen) < 25:
@@ -1723,10 +1793,15 @@ def main(run):
         "unregistered names: only str values must come back equal; other values must be exported as str(value)",
         "converters with side effects (LC_*, $PROMPT_TOOLKIT_COLOR_DEPTH, $XONSH_DEBUG, $INTENSIFY_COLORS_ON_WIN, "
         "$UPDATE_OS_ENVIRON) run for real; locale, os.environ and the execer debug level are restored after each case",
-        "inside a swap scope the swapped names are not reassigned or deleted, a swap never names a variable that is "
-        "unset but has a registered default, and the second-thread view ignores names that went through a swap scope "
-        "(all three are C11's subject); a swap of a name that an active alias overlay also holds is not generated "
-        "(the documentation admits two precedences)",
+        "inside a swap scope the swapped names (and their `sync` twins) are not reassigned or deleted (C11's subject)",
+        "only while the corresponding entry of known_findings.json is open: a swap / `$X=v cmd` prefix never names a "
+        "variable that is unset but has a registered default (C11-F1), never names a variable an active alias overlay "
+        "holds (C11-F3), and the second-thread view ignores names that went through a swap scope (C11-F2); a "
+        "`$X=v cmd` prefix of a name an alias overlay holds is not generated while C10-F9 is open",
+        "an alias overlay has priority over swapped values wherever it sits in the nesting (Env.swap docstring, "
+        "docs/callable_aliases.rst); a per-command prefix has priority over both",
+        "assignments (plain, swap, prefix) of a variable with a `sync` twin apply to the twin in the same scope; "
+        "deletion and DELETE_VAR masks apply to the named variable only (what Env does; no document says otherwise)",
         "with $UPDATE_OS_ENVIRON histories use set / delete / EnvPath edits / launches only",
         "variable names and values contain no NUL and no lone surrogates (they must survive execve)",
     ]
